@@ -187,6 +187,16 @@ CHECKS = {
         tech="bounded exhaustive enumeration of command lines and server responses against a reference model of the expected request",
         sec="C19",
     ),
+    "C17": dict(
+        cat="model_checking",
+        text="Operation alphabet of 22 library operations with fixed inputs. Histories: every sequence up to depth 2 (thorough: 3) run in a process forked from a pristine parent, every "
+        "result compared with the same operation alone in a pristine process, inputs snapshotted before/after (purity), global-state fingerprints recorded. Schedules: pairs (thorough: "
+        "also triples) of operations in real threads under a deterministic scheduler whose scheduling points are the lines / function entries executed inside ofxtools/, explored "
+        "exhaustively within a preemption bound; every thread's result must equal its sequential baseline.",
+        note="2-3 threads at line granularity (C extensions atomic); quick tier preempts tree/instance operations only at the first visit of each line; free-running 16-thread run is a smoke test only.",
+        tech="explicit-state exploration of operation histories (fork per branch) + preemption-bounded stateless schedule enumeration (sys.settrace scheduler)",
+        sec="C17",
+    ),
 }
 
 NA_REASON = "check not built yet in this revision of /verif (planned: see DESIGN.md section 3); nothing is claimed for it"
